@@ -621,6 +621,11 @@ class Performance(object):
                     for i, pp in enumerate(self)
                     for p in pp.programs
                 ]
+                + [
+                    (i, m.get("track", -1))
+                    for i, pp in enumerate(self)
+                    for m in pp.time_signatures + pp.key_signatures + pp.meta_other
+                ]
             )
         )
 
@@ -635,6 +640,10 @@ class Performance(object):
 
             for program in ppart.programs:
                 program["track"] = track_map[(i, program.get("track", -1))]
+
+            # signatures and other meta events stay on the track of their part
+            for meta in ppart.time_signatures + ppart.key_signatures + ppart.meta_other:
+                meta["track"] = track_map[(i, meta.get("track", -1))]
 
     def __getitem__(self, index: int) -> PerformedPart:
         """Get `Part in the score by index"""
